@@ -116,6 +116,58 @@ func VerifC18Store() {
 	sym.Reach("done")
 }
 
+// VerifC18Reuse: the bytes a marshaller returned stay what they were when the
+// same marshaller encodes another store afterwards (snapshots are written
+// asynchronously while the next segment is already being saved).
+func VerifC18Reuse() {
+	mk := func(tag string) (*StoreData, []c18Entry) {
+		d := &StoreData{Kv: map[string][]byte{}}
+		var es []c18Entry
+		n := sym.Choice("entries-"+tag, 2) + 1
+		for i := 0; i < n; i++ {
+			k := string(rune('a' + i))
+			v := sym.Bytes("value-"+tag, sym.Param("VALLEN", 2))
+			es = append(es, c18Entry{k, v})
+			d.Kv[k] = v
+		}
+		return d, es
+	}
+	a, ea := mk("a")
+	b, eb := mk("b")
+	var m Marshaller
+	switch sym.Choice("marshaller", 3) {
+	case 0:
+		m = Default()
+	case 1:
+		m = &VTproto{}
+	default:
+		m = &ProtoingFast{}
+	}
+	ba, err := m.Marshal(a)
+	if err != nil {
+		sym.Unreachable("first-marshal-ok")
+		return
+	}
+	bb, err := m.Marshal(b)
+	if err != nil {
+		sym.Unreachable("second-marshal-ok")
+		return
+	}
+	backA, _, err := (&VTproto{}).Unmarshal(ba)
+	if err != nil {
+		sym.Unreachable("first-bytes-still-decode")
+		return
+	}
+	c18SameKV(ea, backA.Kv, "first-bytes-unchanged-by-second-marshal")
+	backB, _, err := (&VTproto{}).Unmarshal(bb)
+	if err != nil {
+		sym.Unreachable("second-bytes-decode")
+		return
+	}
+	c18SameKV(eb, backB.Kv, "second-bytes")
+	sym.Reach("done")
+}
+
 // VerifC18Varint: uvarintByteCount agrees with encoding/binary for every 64-bit value.
 func VerifC18Varint() {
 	x := sym.U64("x")
